@@ -1,7 +1,7 @@
 """C12 Verify accepts exactly what decrypt accepts; writes nothing; inputs stay intact."""
 from .common import combined
 LEVEL = 'other'
-RULES = ('R12.a', 'R12.b', 'R12.c', 'R12.d', 'R02.f')
+RULES = ('R12.a', 'R12.b', 'R12.c', 'R12.d', 'R12.e', 'R12.f', 'R02.f')
 
 
 def run(prog, rec, tier):
@@ -14,3 +14,5 @@ def run(prog, rec, tier):
              '(shared verification step returned 0); both reach that step with the same stream reads and get the same outcome set; '
              'a missing input is handled alike; the verify operation has no output effect; no operation writes through the input stream; the input is opened read-only and the default output name is the input '
              'path plus a non-empty suffix (so the "wb+" open can never truncate the input).')
+    C.exit_mapping()      # R12.f uses what the reader analysis found out about the verification step
+    rec.obls = [o for o in rec.obls if o.rule in RULES]
